@@ -322,6 +322,11 @@ func callTx(tx *nutsdb.Tx, m string, a *targs) error {
 	return err
 }
 
+// totalMutating: the Tx methods that change contents when they succeed.
+var totalMutating = map[string]bool{"Put": true, "PutWithTimestamp": true, "Delete": true, "RPop": true, "RPush": true, "LPush": true, "LPop": true,
+	"LRem": true, "LSet": true, "LTrim": true, "SAdd": true, "SRem": true, "SPop": true, "SMoveByOneBucket": true, "SMoveByTwoBuckets": true,
+	"ZAdd": true, "ZPopMax": true, "ZPopMin": true, "ZRem": true, "ZRemRangeByRank": true}
+
 func preload(db *nutsdb.DB) {
 	err := db.Update(func(tx *nutsdb.Tx) error {
 		tx.Put("b", []byte("k"), []byte("v"), 0)
@@ -509,6 +514,7 @@ func runTotal(in, out, tmp, summary string) {
 		opt := nutsdb.DefaultOptions
 		opt.Dir = dir
 		opt.SegmentSize = 1024
+		opt.SyncEnable = false
 		opt.RWMode = nutsdb.RWMode(dbn % 2)
 		var e error
 		db, e = nutsdb.Open(opt)
@@ -622,6 +628,10 @@ func runTotal(in, out, tmp, summary string) {
 			fresh()
 		} else if strings.HasPrefix(c.Life, "closed-") {
 			db = nil
+			fresh()
+		} else if c.Life == "rw" && e == nil && totalMutating[c.M] {
+			// the call changed the preloaded structures: the next call starts
+			// from the preloaded state again (every call meets the same state)
 			fresh()
 		}
 		rec.Emit(ev)
